@@ -18,7 +18,8 @@
 (* window or next to the reference (one vector in four); speed bytes are    *)
 (* arbitrary, zero or extreme; one vector in eleven is a steady turn whose  *)
 (* track extrapolated to the time of the packet is exactly north (0 degree, *)
-(* the closed end of [0, 360)).                                             *)
+(* the closed end of [0, 360)); the last two vectors of every block of 29   *)
+(* are a twin pair (same SeedOf, other key table), see below.               *)
 EXTENDS Flarm, TLC, IOUtils, Json
 
 Seed == IF "GEN_SEED" \in DOMAIN IOEnv THEN atoi(IOEnv.GEN_SEED) ELSE 1
@@ -97,7 +98,7 @@ Turn(h1, h2) ==
 
 IsTurn(i) == i % 11 = 10
 
-Tuple(i) ==
+PlainTuple(i) ==
   LET h   == [j \in 1..12 |-> Rnd(i, j)]
       tn  == Turn(h[10], h[11])
       ref == Refs[(i % Len(Refs)) + 1]
@@ -120,14 +121,44 @@ Tuple(i) ==
        ew |-> IF IsTurn(i) THEN tn.ew ELSE Speeds(i \div 9, h[11]),
        tail |-> <<h[12][2] % 256, h[12][2] \div 256>> ]
 
+(* Twin pairs (Flarm!TwinTime/TwinAddr): in every block of 29 vectors the   *)
+(* last two are a transmission and its twin - same fields, same SeedOf,     *)
+(* other key table - to be decoded one right after the other; the original  *)
+(* comes first in even blocks, the twin first in odd blocks.  The mask is   *)
+(* the single table bit (device A ^ 0x200 at T ^ 2^23) in one pair of three *)
+(* and the table bit plus arbitrary further bits otherwise.                 *)
+Block == 29
+TwinPos(i) == i % Block >= Block - 2
+TwinBase(i) == i - (i % Block) + (Block - 2)
+TwinMaskOf(j) == IF (j \div Block) % 3 = 0 THEN TwinBit
+                 ELSE LET r == Rnd(j, 13)[2] IN r - ((r \div TwinBit) % 2) * TwinBit + TwinBit
+TwinOf(p, d) == [p EXCEPT !.ts = TwinTime(p.ts, d), !.addr = TwinAddr(p.addr, d)]
+IsTwinRole(i) == (i % Block = Block - 2) # ((i \div Block) % 2 = 0)
+
+Tuple(i) ==
+  IF ~TwinPos(i) THEN PlainTuple(i)
+  ELSE LET j == TwinBase(i) IN
+       IF IsTwinRole(i) THEN TwinOf(PlainTuple(j), TwinMaskOf(j)) ELSE PlainTuple(j)
+
+Family(i) ==
+  CASE TwinPos(i) /\ IsTwinRole(i) -> "twin"
+    [] TwinPos(i) -> "twin_original"
+    [] IsTurn(i) -> "turn_through_north"
+    [] OTHER -> "plain"
+
 Vector(i) == LET p == Tuple(i) IN
-  [i |-> i, p |-> p, pkt |-> Packet(p), fam |-> IF IsTurn(i) THEN "turn_through_north" ELSE "plain"]
+  [i |-> i, p |-> p, pkt |-> Packet(p), fam |-> Family(i)]
 
 ASSUME Emit ==
   \A i \in From..To :
      LET v == Vector(i) IN
      /\ WellFormed(v.p)
      /\ Decodable(v.p.lat, v.p.lon, v.p.reflat, v.p.reflon)
+     /\ (v.fam = "twin" =>
+           LET o == PlainTuple(TwinBase(i)) IN
+           /\ IsTwinMask(TwinMaskOf(TwinBase(i)))
+           /\ SeedOf(v.p.ts, v.p.addr) = SeedOf(o.ts, o.addr)
+           /\ TableOf(v.p.ts) # TableOf(o.ts))
      /\ PrintT(ToJson(v))
 
 VARIABLE done
